@@ -62,6 +62,9 @@ pub enum Input<'a> {
     File(&'a str),
     Eval(&'a str),
     Stdin(&'a str),
+    /// the script arrives on stdin in several writes; each piece is written only when the
+    /// previous one has been consumed (FIONREAD == 0), as an interactive producer would
+    StdinPieces(&'a str, &'a [usize]),
 }
 
 fn scratch_dir() -> PathBuf {
@@ -73,6 +76,7 @@ fn scratch_dir() -> PathBuf {
 pub fn run(build: Build, input: Input<'_>, stdin_extra: Option<&[u8]>, timeout: Duration) -> CliRun {
     let mut cmd = Command::new(build.path());
     let mut feed: Option<Vec<u8>> = stdin_extra.map(<[u8]>::to_vec);
+    let mut cuts: Vec<usize> = Vec::new();
     match input {
         Input::File(src) => {
             let f = scratch_dir().join("case.ns");
@@ -85,6 +89,11 @@ pub fn run(build: Build, input: Input<'_>, stdin_extra: Option<&[u8]>, timeout: 
         Input::Stdin(src) => {
             cmd.arg("-");
             feed = Some(src.as_bytes().to_vec());
+        }
+        Input::StdinPieces(src, c) => {
+            cmd.arg("-");
+            feed = Some(src.as_bytes().to_vec());
+            cuts = c.to_vec();
         }
     }
     cmd.env("RUST_BACKTRACE", "0");
@@ -106,7 +115,33 @@ pub fn run(build: Build, input: Input<'_>, stdin_extra: Option<&[u8]>, timeout: 
     let writer = feed.map(|data| {
         let mut si = child.stdin.take().unwrap();
         std::thread::spawn(move || {
-            let _ = si.write_all(&data);
+            use std::os::fd::AsRawFd;
+            let fd = si.as_raw_fd();
+            let mut prev = 0usize;
+            let t0 = Instant::now();
+            for c in cuts.iter().copied().chain(std::iter::once(data.len())) {
+                if c <= prev || c > data.len() {
+                    continue;
+                }
+                if si.write_all(&data[prev..c]).is_err() {
+                    return;
+                }
+                prev = c;
+                if c < data.len() {
+                    // wait until the reader has taken this piece (bounded: a reader that
+                    // stopped reading must not hang the harness)
+                    loop {
+                        let mut n: libc::c_int = 0;
+                        unsafe { libc::ioctl(fd, libc::FIONREAD, &mut n) };
+                        if n == 0 || t0.elapsed() > Duration::from_secs(10) {
+                            break;
+                        }
+                        std::thread::yield_now();
+                    }
+                    // and has had the time to issue (and block in) its next read
+                    std::thread::sleep(Duration::from_millis(3));
+                }
+            }
         })
     });
     let mut so = child.stdout.take().unwrap();
